@@ -19,7 +19,7 @@ RULE = (
     "performs an event write (insert, bulk insert of 0..5 or occasionally 49..230 events with and without ids, replace, replace_last, delete) or occasionally a read. Oracle with the C06 observers: a flush moment is any "
     "COMMIT statement or any operation return at which the second connection's dump equals the writer's; for each event write at clock time t with f the latest "
     "earlier flush (store creation counts): if t - f >= 11 s then after the write returns the second connection must see the writer's state (the write itself is "
-    "durable). Nothing is demanded for t - f <= 9 s. The controlled clock starts in 2001, 2023 or 2096. Real time as well (4 children in quick, 16 in thorough): child processes write, sleep 11..12 s, write again, and the parent inspects the file "
+    "durable). Nothing is demanded for t - f <= 9 s. The controlled clock starts in 2001, 2023 or 2096 and hands out naive local time as datetime.now() does; in workers whose local zone observes daylight saving, 3 cases in 5 start 5..100 s before the wall clock is set back. Real time as well (4 children in quick, 16 in thorough): child processes write, sleep 11..12 s, write again, and the parent inspects the file "
     "through a fresh connection. Non-trivial = some write follows a >= 11 s pause while 1..49 writes are pending (the count threshold cannot explain the flush)."
 )
 ASSUMPTIONS = [
@@ -64,7 +64,12 @@ def strategy(draw, tier="quick"):
         ops[at:at] = [{"op": "read", "b": 0, "kind": "count", "adv": 0}] + [{"op": "insert", "b": 0, "e": [i % 50, 1, "b"], "adv": gap} for i in range(n)]
     # where the controlled clock starts: long before or long after the real present, so that an instant the store took from
     # anywhere else (the real clock, a value frozen at import) is far off in one direction or the other
-    return {"ops": ops, "clock_base": draw(st.sampled_from([1_000_000_000, 1_700_000_000, 4_000_000_000]))}
+    return {
+        "ops": ops,
+        "clock_base": draw(st.sampled_from([1_000_000_000, 1_700_000_000, 4_000_000_000])),
+        # start a little before the local zone's next end of daylight saving (the wall clock is then set back an hour), if it has one
+        "before_fall_back_s": draw(st.sampled_from([None, None, 5, 20, 100])),
+    }
 
 
 def known_key(case, v):
@@ -130,7 +135,13 @@ class Oracle:
 def run_case(case):
     path = env.fresh_path(".db")
     r = None
-    with stores.FakeClock(float(case.get("clock_base", 1_700_000_000))) as clock:
+    dst = False
+    with stores.FakeClock(float(min(case.get("clock_base", 1_700_000_000), 2_000_000_000 if case.get("before_fall_back_s") else 10**11))) as clock:
+        if case.get("before_fall_back_s"):
+            fb = clock.next_fall_back()
+            if fb is not None:
+                clock.t = float(fb - case["before_fall_back_s"])
+                dst = True
         orc = Oracle(path, clock)
         try:
             with sut("sqlite: running the history"):
@@ -148,6 +159,8 @@ def run_case(case):
     classes = [k for k, v in f.items() if v and k != "writes"]
     if any(o["adv"] >= 3600 for o in case["ops"]):
         classes.append("long_idle")
+    if dst:
+        classes.append("local_clock_set_back_during_history")
     return {"nontrivial": f["age_flush_demanded_with_few_pending"] > 0, "classes": classes, "evals": f["writes"]}
 
 
